@@ -504,6 +504,7 @@ Plan gen_base(const std::string &profile, uint64_t seed, const JV &opts) {
 	int nclients = 2 + (int)r.below(4);
 	if (profile == "c04") h.set("observer", JV::boolean(true));
 	if (profile == "c16") h.set("notify_prop", JV::str("C16"));
+	if (profile == "c08") h.set("notify_prop", JV::str("C08"));
 	if (profile == "c05") h.set("memprop", JV::str("C05"));
 	if (profile == "c14") h.set("memprop", JV::str("C14"));
 	if (profile == "c08" || (profile == "c07" && r.chance(0.4))) g.setup_creds(h);
@@ -1466,7 +1467,14 @@ Plan c15_scenario(int idx) {
 
 std::vector<std::string> list_profiles() { return {"base", "c01", "c03", "c04", "c05", "c14", "c02", "c06", "c07", "c08", "c16", "c12", "c13", "c09", "c10", "c11", "c20", "c19"}; }
 
+static Plan generate_plan_inner(const std::string &profile, uint64_t seed, const JV &opts);
 Plan generate_plan(const std::string &profile, uint64_t seed, const JV &opts) {
+	Plan p = generate_plan_inner(profile, seed, opts);
+	// a sanitizer report or crash is attributed to the property whose check is running, unless the profile says otherwise
+	if (opts.has("memprop") && !p.hdr.has("memprop")) p.hdr.set("memprop", JV::str(opts.gets("memprop")));
+	return p;
+}
+static Plan generate_plan_inner(const std::string &profile, uint64_t seed, const JV &opts) {
 	if (profile == "c02" || profile == "c06") return gen_hostile(profile, seed, opts);
 	if (profile == "c12" || profile == "c13") return gen_http(profile, seed, opts);
 	if (profile == "c09") return gen_c09(profile, seed, opts);
